@@ -57,7 +57,9 @@ def build_model(spec, route="ctor", cls=None, style=None, initialize=True):
         icd.update(x0)
         return cls(reactions=[], parameters=params, initial_condition_dict=icd, initialize_model=False) \
             if False else _icd(cls, spec, rx, rl, params, icd, initialize)
-    if route == "incremental":
+    if route in ("incremental", "incremental_implicit"):
+        # incremental_implicit: spec["species"] lists only what has to be declared up front (species that occur in rate laws only);
+        # every other species enters the model through the reaction that first mentions it
         m = cls(species=list(spec["species"]), initialize_model=False)
         for i_, t in enumerate(rx):
             _poison(m, spec, i_)
@@ -89,7 +91,7 @@ def _poison(m, spec, i):
     for pos, kind in spec.get("poison", []):
         if pos != i:
             continue
-        sp = list(spec["species"])
+        sp = list(spec["species"]) or ref.all_species(spec)
         a, b = sp[0], sp[-1]
         try:
             if kind == "hill_s1":
@@ -98,6 +100,17 @@ def _poison(m, spec, i):
                 m.create_reaction([b], [a, a, a], "proportionalhillnegative", {"k": 1.0, "K": 2.0, "n": 2, "s1": a, "d": "zz_undeclared"})
             elif kind == "ma_species":
                 m.create_reaction([a], [b, b], "massaction", {"k": 1.0, "species": "zz_undeclared*" + a})
+            elif kind == "delay_param_species_name":
+                # a delay parameter named like a species is refused when the parameter is registered
+                m.create_reaction([a], [b], "massaction", {"k": 1.0}, delay_type="fixed", delay_reactants=[], delay_products=[b],
+                                  delay_param_dict={"delay": a})
+            elif kind == "new_species_bad_delay":
+                # introduces a new immediate species and a new delayed-only species, then fails on the delay dictionary
+                m.create_reaction([a], ["zz_n1"], "massaction", {"k": 1.0}, delay_type="fixed", delay_reactants=[], delay_products=["zz_n2"],
+                                  delay_param_dict={})
+            elif kind == "unknown_delay_type":
+                m.create_reaction([a], ["zz_n3", b], "massaction", {"k": 1.0}, delay_type="weibull", delay_reactants=[], delay_products=["zz_n4"],
+                                  delay_param_dict={"delay": 1.0})
             else:
                 m.create_reaction([a], [b], "hillnegative", {"k": 1.0, "K": 2.0, "n": 2, "s1": "zz_undeclared"},
                                   delay_type="fixed", delay_reactants=[b], delay_products=[a, a], delay_param_dict={"delay": 1.0})
